@@ -433,7 +433,7 @@ class Ev:
         mt = types.under(m.t)
         d = types.desc(m.t)
         kv = self.coerce(kv, d['key'])
-        kt = V.key_term(types, kv, None if self.quant else self.st)
+        kt = self.key_of(kv)
         lv = {}
         for (p, s, role) in types.leaves(d['elem']):
             key, reg = self.st.region('map', mt, ('v',) + p, ('A', s))
@@ -445,7 +445,7 @@ class Ev:
         mt = types.under(m.t)
         d = types.desc(m.t)
         kv = self.coerce(kv, d['key'])
-        kt = V.key_term(types, kv, None if self.quant else self.st)
+        kt = self.key_of(kv)
         key, reg = self.st.region('map', mt, ('has',), ('A', 'B'))
         present = z3.And(m.term != 0, z3.Select(z3.Select(reg, m.term), kt))
         if not self.quant:
@@ -699,8 +699,8 @@ class Ev:
         if isinstance(b, NilV):
             return V.is_nil(self.types, a)
         if a.t == '$key' or b.t == '$key':
-            ta = a.lv[()] if a.t == '$key' else V.key_term(self.types, a, None if self.quant else self.st)
-            tb = b.lv[()] if b.t == '$key' else V.key_term(self.types, b, None if self.quant else self.st)
+            ta = a.lv[()] if a.t == '$key' else self.key_of(a)
+            tb = b.lv[()] if b.t == '$key' else self.key_of(b)
             return ta == tb
         if a.t == MATHINT or b.t == MATHINT:
             return self.as_int(a) == self.as_int(b)
@@ -981,6 +981,18 @@ class Ev:
     def fn_div(self, args):
         return mathint(self.int(args[0]) / self.int(args[1]))
 
+    def key_of(self, v):
+        """map key term of a value; under a binder the packing function's injectivity is stated
+        as an axiom (outside one, as facts about the term itself)"""
+        kt = V.key_term(self.types, v, None if self.quant else self.st)
+        if self.quant and V.PACK_UNDER_BINDER:
+            for ax in V.pack_axioms():
+                try:
+                    self.st.assume(ax, definitional=True)
+                except TypeError:
+                    self.st.assume(ax)
+        return kt
+
     def fn_forallkeys(self, args):
         """forallkeys(m, k, body): body for every possible key k of map m (unbounded)"""
         m = self.deref_auto(self.ev(args[0]))
@@ -993,7 +1005,15 @@ class Ev:
         env[name] = Val('$key', {(): k})
         subev = self.sub(env=env, quant=True)
         subev.qdepth = qd + 1
-        return boolv(z3.ForAll([k], subev.bool(args[2])))
+        body = subev.bool(args[2])
+        # keys of an integer-keyed map are values of the key type: nothing is claimed (or known)
+        # about integers outside its range
+        kt = self.types.desc(self.types.under(m.t)).get('key')
+        if kt is not None and self.types.kind(kt) == 'int':
+            rng = self.types.int_range(kt)
+            if rng is not None:
+                body = z3.Implies(z3.And(k >= rng[0], k <= rng[1]), body)
+        return boolv(z3.ForAll([k], body))
 
     def fn_same(self, args):
         """same(a, b): identical representation (for slices: same backing array, bounds)"""
